@@ -66,11 +66,20 @@ Fixpoint list_eqb (a b : list Z) : bool :=
   | x :: a', y :: b' => (x =? y) && list_eqb a' b'
   | _, _ => false
   end.
+(* the same list computed from a table of (position, label) built once (cheap for sparse label
+   numbers); equal to neighbors_spec: Proofs/SpecC15.v, neighbors_spec_tab_eq *)
+Definition pixel_table (img : image) : list (px * Z) :=
+  map (fun p => (p, get2 img (fst p) (snd p))) (positions (img_h img) (img_w img)).
+Definition neighbors_spec_tab (tab : list (px * Z)) (img : image) (l : Z) : list Z :=
+  zunique (filter (fun m => negb (m =? 0) && negb (m =? l))
+            (flat_map (fun p => map (fun d => get2 img (fst p + fst d) (snd p + snd d)) dirs8)
+                      (map fst (filter (fun q => snd q =? l) tab)))).
 Definition neighbors_ok (img : image) (v_count v_index v_neighbor : list Z) : bool :=
   let mx := img_max img in
+  let tab := pixel_table img in
   (Z.of_nat (length v_count) =? mx) && list_eqb v_index (excl_cumsum 0 v_count) &&
   (Z.of_nat (length v_neighbor) =? fold_right Z.add 0 v_count) &&
-  forallb (fun r => list_eqb (slice (snd (fst r)) (fst (fst r)) v_neighbor) (neighbors_spec img (snd r)))
+  forallb (fun r => list_eqb (slice (snd (fst r)) (fst (fst r)) v_neighbor) (neighbors_spec_tab tab img (snd r)))
           (combine (combine v_count v_index) (zrange 1 (Z.to_nat mx))).
 
 (* ---------------------------------------------------------------- color_labels *)
@@ -104,36 +113,38 @@ Definition relabel_ok (img new : image) (n : Z) : bool :=
   forallb (fun k => existsb (fun v => v =? k) b) (zrange 1 (Z.to_nat n)).
 
 (* ---------------------------------------------------------------- all_connected_components *)
-Definition edge_adj (es : list (Z * Z)) (u v : Z) : bool :=
-  existsb (fun e => ((fst e =? u) && (snd e =? v)) || ((fst e =? v) && (snd e =? u))) es.
-(* component numbers in order of the lowest vertex: label of v = number of components whose
-   lowest vertex is below v's component's lowest vertex *)
-Fixpoint acc_spec_go (es : list (Z * Z)) (fuel : nat) (c : Z) (vs : list Z) (acc : list (Z * Z))
-  : list (Z * Z) :=
-  match fuel with
-  | O => acc
-  | S f =>
-      match vs with
-      | [] => acc
-      | v :: rest =>
-          let rest' := fill (edge_adj es) (S (length rest)) [v] rest in
-          let comp := filter (fun u => negb (existsb (fun x => x =? u) rest')) (v :: rest) in
-          acc_spec_go es f (c + 1) rest' (acc ++ map (fun u => (u, c)) comp)
-      end
-  end.
-Definition acc_spec (i j : list Z) : list Z :=
+(* Certificate checker (any size; arrays are maps).  The harness supplies a spanning forest of the
+   undirected edge list: par[v] (= v for a root), for a non-root the index eidx[v] of an edge joining
+   v and par[v], a depth dep[] that decreases towards the root, and rep[] giving for every label
+   the root that carries it.  Checked here: every edge joins equal labels (connected => same label);
+   every vertex hangs, through edges of the list, below a root (so it is connected to it and has its
+   label); two roots never share a label (same label => connected).  Soundness:
+   Proofs/AccCertC15.v, acc_cert_sound. *)
+Definition acc_cert_ok (i j labels par eidx dep rep : list N) : bool :=
   match i with
-  | [] => []
+  | [] => match labels with [] => true | _ => false end
   | _ =>
-      let n := Z.to_nat (fold_right Z.max 0 (i ++ j) + 1) in
-      let vs := zrange 0 n in
-      let tab := acc_spec_go (combine i j) (S n) 0 vs [] in
-      map (fun v => fold_right (fun p r => if fst p =? v then snd p else r) (-1) tab) vs
+      let n := length labels in
+      let lm := mof_list 0 labels mempty in
+      let pm := mof_list 0 par mempty in
+      let em := mof_list 0 eidx mempty in
+      let dm := mof_list 0 dep mempty in
+      let rm := mof_list 0 rep mempty in
+      let im := mof_list 0 i mempty in
+      let jm := mof_list 0 j mempty in
+      let nN := N.of_nat n in
+      let ne := N.of_nat (length i) in
+      (length i =? length j)%nat && (n =? S (N.to_nat (list_maxN (i ++ j))))%nat &&
+      forallb (fun e => N.eqb (mgetd lm (fst e)) (mgetd lm (snd e))) (combine i j) &&
+      forallb (fun v =>
+         let p := mgetd pm v in
+         if N.eqb p v then N.eqb (mgetd rm (mgetd lm v)) v
+         else N.ltb p nN && N.ltb (mgetd dm p) (mgetd dm v) &&
+              (let k := mgetd em v in
+               N.ltb k ne &&
+               ((N.eqb (mgetd im k) v && N.eqb (mgetd jm k) p) || (N.eqb (mgetd im k) p && N.eqb (mgetd jm k) v))))
+        (nseq 0 n)
   end.
-Definition acc_ok (i j labels : list Z) : bool := list_eqb labels (acc_spec i j).
-(* cheap clause for big graphs: both ends of every edge carry the same label *)
-Definition acc_closed (i j labels : list Z) : bool :=
-  forallb (fun e => getl labels (fst e) =? getl labels (snd e)) (combine i j).
 
 (* ---------------------------------------------------------------- wire entries *)
 (* (img indexes w4) -> bool *)
@@ -148,6 +159,7 @@ Definition entry_check_colors (x : sx) : sx :=
 (* (img new n) -> bool *)
 Definition entry_check_relabel (x : sx) : sx :=
   of_bool (relabel_ok (as_Zss (arg 0 x)) (as_Zss (arg 1 x)) (as_Z (arg 2 x))).
-(* (i j labels) -> bool *)
+(* (i j labels par eidx dep rep) -> bool *)
 Definition entry_check_acc (x : sx) : sx :=
-  of_bool (acc_ok (as_Zs (arg 0 x)) (as_Zs (arg 1 x)) (as_Zs (arg 2 x))).
+  let f := fun k => map Z.to_N (as_Zs (arg k x)) in
+  of_bool (acc_cert_ok (f 0%nat) (f 1%nat) (f 2%nat) (f 3%nat) (f 4%nat) (f 5%nat) (f 6%nat)).
